@@ -272,7 +272,8 @@ def trace_round(ctx, n_sessions, T=16, nfiles=(6, 14)):
     tdir = ctx.tmpdir()
     path = os.path.join(tdir, "find.ndjson")
     recs = []
-    combos = [("yearend6h", l) for l in ("flat", "Y", "Y/M", "Y/M/D", "Y/doy", "tag/Y/M/D", "Y/tag/M/D", "Y2/M/D", "fix/Y/M/D")] + \
+    combos = [("yearend6h", l) for l in ("flat", "Y", "Y/M", "Y/M/D", "Y/doy", "tag/Y/M/D", "Y/tag/M/D", "Y2/M/D", "fix/Y/M/D",
+                                           "Y/M/D/tag", "Y/M/tag/D")] + \
              [("leapday6h", "Y/M/D"), ("monthend6h", "Y/doy"), ("hour15m", "Y/M/D/H"), ("hour15m", "Y/M/D"),
               ("y2seam6h", "Y2/M/D")]
     for tid in range(1, n_sessions + 1):
@@ -325,11 +326,11 @@ def run(ctx):
     if quick:
         design_check(ctx, "yearend6h", "Y/M/D", 10, 2, 4, [1])
         design_check(ctx, "yearend6h", "Y/tag/M/D", 10, 1, 4, [1, 2])
-        design_check(ctx, "yearend6h", "Y/M", 10, 1, 4, [1])
+        design_check(ctx, "yearend6h", "Y/M/D/tag", 10, 1, 4, [1, 2])
         design_check(ctx, "hour15m", "Y/M/D/H", 10, 1, 4, [1])
         design_check(ctx, "yearend6h", "Y/M/D", 10, 1, 8, [1], usepre=False, must_hold=False)
     else:
-        for layout in ("flat", "Y", "Y/M", "Y/M/D", "Y/doy", "tag/Y/M/D", "Y/tag/M/D"):
+        for layout in ("flat", "Y", "Y/M", "Y/M/D", "Y/doy", "tag/Y/M/D", "Y/tag/M/D", "Y/M/D/tag"):
             design_check(ctx, "yearend6h", layout, 12, 2, 4, [1, 2])
         design_check(ctx, "yearend6h", "Y/M/D", 12, 3, 4, [1])
         design_check(ctx, "leapday6h", "Y/M/D", 12, 2, 4, [1])
@@ -347,9 +348,10 @@ def run(ctx):
         cases += gen_cases(ctx, 12, 2, 4, [1], 0, -1, ctx.seed)[::3]
         cases += gen_cases(ctx, 12, 3, 4, [1, 2], 1500, -1, ctx.seed)
         cases += gen_cases(ctx, 12, 4, 4, [1, 2], 500, -1, ctx.seed + 1)
-    six = [("yearend6h", l) for l in ("flat", "Y", "Y/M", "Y/M/D", "Y/doy", "tag/Y/M/D", "Y/tag/M/D", "Y2/M/D", "YM/D", "fix/Y/M/D")] + \
+    six = [("yearend6h", l) for l in ("flat", "Y", "Y/M", "Y/M/D", "Y/doy", "tag/Y/M/D", "Y/tag/M/D", "Y2/M/D", "YM/D", "fix/Y/M/D",
+                                        "Y/M/D/tag", "Y/M/tag/D", "Y/doy/tag")] + \
           [("leapday6h", "Y/M/D"), ("monthend6h", "Y/doy"), ("y2seam6h", "Y2/M/D"), ("hour15m", "Y/M/D/H"),
-           ("hour15m", "Y/M/D")]
+           ("hour15m", "Y/M/D"), ("leapday6h", "Y/M/D/tag"), ("hour15m", "Y/M/D/tag")]
     items = []
     for n, c in enumerate(cases):
         sts = styles_for(c)
